@@ -1,8 +1,17 @@
 (* C08, layer M2: the property oracle for UpdateRegion on a period whose update function is
    LegacyTimePeriod::ScriptFunc.  For every probe instant t inside the computed window [b', e) the
-   observed "inside" must equal what the property says: prefer_includes ? (own /\ ~E) \/ I : (own \/ I) /\ ~E
+   implementation's IsInside ANSWER must equal what the property says: prefer_includes ? (own /\ ~E) \/ I : (own \/ I) /\ ~E
    with own = "t's local wall-clock time lies in a time range of a matching calendar day (the day of t or,
-   for ranges running past midnight, a day before)".  A deviation is classified:
+   for ranges running past midnight, a day before)".
+
+   Where the oracle looks is decided by the SPECIFICATION, not by what the implementation produced: tp_spec_bounds
+   lists the instants of both boundaries of every WRITTEN time range of every period of the case, on every day that can
+   reach the window; the oracle refuses to decide (TpClsProbes) unless the probes of the case contain every such boundary,
+   its two neighbours, and an instant in the middle half of every gap between two consecutive boundaries
+   (tp_probes_cover).  The verdict is taken on the IsInside bits; the observed segment array only has to be consistent
+   with them (TpClsIsInside) and the valid window has to cover the region (TpClsWindow).
+
+   A deviation is classified:
      TpClsWrapFirstDay  the observation equals the statement with days before the window's first local
                         day left out (F-C08-b)
      TpClsStrideDst     the observation equals the statement with the stride counted in seconds/86400
@@ -12,16 +21,48 @@
 From Icv Require Import Base.Tac Tp.TpModel Tp.TpProofs Tp.TpObs Tp.TpCal.
 Local Open Scope Z_scope.
 
-Inductive tp_cls := TpClsWrapFirstDay | TpClsStrideDst | TpClsWrapAndStride | TpClsOther | TpClsIsInside | TpClsWindow.
+Inductive tp_cls := TpClsWrapFirstDay | TpClsStrideDst | TpClsWrapAndStride | TpClsOther | TpClsIsInside | TpClsWindow | TpClsProbes.
 
 Definition tp_class_name (c : tp_cls) : Z :=
   match c with
   | TpClsWrapFirstDay => 1 | TpClsStrideDst => 2 | TpClsWrapAndStride => 3
-  | TpClsOther => 4 | TpClsIsInside => 5 | TpClsWindow => 6
+  | TpClsOther => 4 | TpClsIsInside => 5 | TpClsWindow => 6 | TpClsProbes => 7
   end.
 
 (* how many days back a range can reach: the generator keeps range ends below 72:00 *)
 Definition tp_back : nat := 3%nat.
+
+(* ---------------- where to look: instants derived from the written ranges ---------------- *)
+
+Fixpoint tp_days_from (n : nat) (d : Z) : list Z :=
+  match n with O => [] | S k => d :: tp_days_from k (d + 1) end.
+
+Fixpoint tp_sort_insert (x : Z) (l : list Z) : list Z :=
+  match l with
+  | [] => [x]
+  | y :: r => if x <=? y then x :: l else y :: tp_sort_insert x r
+  end.
+Definition tp_sort (l : list Z) : list Z := fold_right tp_sort_insert [] l.
+
+Definition tp_mem (x : Z) (l : list Z) : bool := existsb (Z.eqb x) l.
+
+(* every gap of at least 4 s between two consecutive boundaries is sampled in its middle half *)
+Fixpoint tp_gaps_ok (probes sorted : list Z) : bool :=
+  match sorted with
+  | u1 :: r =>
+      match r with
+      | u2 :: _ =>
+          (if 4 <=? u2 - u1
+           then existsb (fun t => (u1 + (u2 - u1) / 4 <=? t) && (t <=? u2 - (u2 - u1) / 4)) probes
+           else true) && tp_gaps_ok probes r
+      | [] => true
+      end
+  | [] => true
+  end.
+
+Definition tp_probes_cover (probes bounds : list Z) : bool :=
+  forallb (fun u => tp_mem (u - 1) probes && tp_mem u probes && tp_mem (u + 1) probes) bounds
+  && tp_gaps_ok probes (tp_sort bounds).
 
 Section Cal.
 Variable base : Z.
@@ -42,20 +83,34 @@ Definition tp_cal_classify (ranges : list (tp_dayrange * list (Z * Z))) (prefer 
   else if Bool.eqb observed (tp_cal_expect true (Some d0) ranges prefer incs excs t) then Some TpClsWrapAndStride
   else Some TpClsOther.
 
+(* the instants of both boundaries of every written time range (of every period of the case: [allr]) on the days
+   that can reach the window [lo, hi] *)
+Definition tp_range_bounds (allr : list (tp_dayrange * list (Z * Z))) (d : Z) : list Z :=
+  flat_map (fun kv => flat_map (fun tr : Z * Z =>
+     let te' := if snd tr <=? fst tr then snd tr + 86400 else snd tr in
+     [mk (d * 86400 + fst tr); mk (d * 86400 + te')]) (snd kv)) allr.
+
+Definition tp_spec_bounds (allr : list (tp_dayrange * list (Z * Z))) (lo hi : Z) : list Z :=
+  filter (fun u => (lo <=? u) && (u <=? hi))
+         (flat_map (tp_range_bounds allr)
+                   (tp_days_from (Z.to_nat (tp_local_day off hi - tp_local_day off lo + 2 + Z.of_nat tp_back))
+                                 (tp_local_day off lo - Z.of_nat tp_back))).
+
+(* the verdict on the IsInside answers: (probe instant, answer) pairs *)
 Fixpoint tp_cal_first_bad (ranges : list (tp_dayrange * list (Z * Z))) (prefer : bool)
-         (incs excs : list (list tp_seg)) (b' e d0 : Z) (post : list tp_seg) (probes : list Z) : option (Z * tp_cls) :=
-  match probes with
+         (incs excs : list (list tp_seg)) (b' e d0 : Z) (answers : list (Z * bool)) : option (Z * tp_cls) :=
+  match answers with
   | [] => None
-  | t :: r =>
+  | (t, o) :: r =>
       if (b' <=? t) && (t <? e) then
-        match tp_cal_classify ranges prefer incs excs d0 t (tp_inside_segs post t) with
+        match tp_cal_classify ranges prefer incs excs d0 t o with
         | Some c => Some (t, c)
-        | None => tp_cal_first_bad ranges prefer incs excs b' e d0 post r
+        | None => tp_cal_first_bad ranges prefer incs excs b' e d0 r
         end
-      else tp_cal_first_bad ranges prefer incs excs b' e d0 post r
+      else tp_cal_first_bad ranges prefer incs excs b' e d0 r
   end.
 
-Definition tp_cal_step_ok (ranges : list (tp_dayrange * list (Z * Z))) (prefer : bool)
+Definition tp_cal_step_ok (allr ranges : list (tp_dayrange * list (Z * Z))) (prefer : bool)
            (incs excs : list (list tp_seg)) (b e : Z) (clear : bool) (probes : list Z)
            (pre post : tp_st) (ins : list bool) : option (Z * tp_cls) :=
   if negb (tp_ins_ok post probes ins) then Some (0, TpClsIsInside)
@@ -63,6 +118,7 @@ Definition tp_cal_step_ok (ranges : list (tp_dayrange * list (Z * Z))) (prefer :
   else
     let b' := tp_upd_begin b clear pre in
     if negb (tp_covers_b post b' e) then Some (0, TpClsWindow)
-    else tp_cal_first_bad ranges prefer incs excs b' e (tp_local_day off b') (tp_segs post) probes.
+    else if negb (tp_probes_cover probes (tp_spec_bounds allr b' e)) then Some (0, TpClsProbes)
+    else tp_cal_first_bad ranges prefer incs excs b' e (tp_local_day off b') (combine probes ins).
 
 End Cal.
